@@ -31,7 +31,7 @@ def plan(tier):
 
 
 def required_regimes(tier):
-    return c01.required_regimes(tier) - {'reflect:allowed_raise', 'variant:N=1', 'variant:C=2'} | {'extra_trailing_sample', 'exact_extent', 'pair:4tuple'}
+    return c01.required_regimes(tier) - {'reflect:allowed_raise', 'variant:N=1', 'variant:C=2', 'variant:no_grad'} | {'extra_trailing_sample', 'exact_extent', 'pair:4tuple', 'mode_reassigned'}
 
 
 def run(item):
@@ -97,6 +97,21 @@ def _run1(res, w, mode, n, cap):
         res['transitions'] += 2 * J
         res.regime(*tags)
         _judge(res, cfg, R, (n,), err_ref, tags)
+        if J == 2 and n in (9, 12):
+            # a forward/inverse pair built for another mode and switched through the public .mode attribute behaves like a fresh pair
+            import torch
+            from pytorch_wavelets import DWT1DForward, DWT1DInverse
+            other = 'zero' if mode in ('periodization', 'per') else 'periodization'
+            try:
+                f2, i2 = DWT1DForward(J=J, wave=w, mode=other), DWT1DInverse(wave=w, mode=other)
+                f2.mode = mode
+                i2.mode = mode
+                R2 = i2(f2(torch.as_tensor(X))).numpy()
+                res.regime('mode_reassigned')
+                if R2.shape != R.shape or not np.array_equal(R2, R):
+                    res.violation('perfect_reconstruction', dict(cfg, mode_reassigned_from=other), {'kind': 'value_or_shape', 'observed_shape': list(R2.shape[2:]), 'expected_shape': list(R.shape[2:])}, tags)
+            except Exception as e:
+                res.violation('perfect_reconstruction', dict(cfg, mode_reassigned_from=other), {'kind': 'raise', 'exc': repr(e)[:200]}, tags)
         if J == 2 and n == 7:
             res.sample({'config': cfg, 'recon_len': int(R.shape[-1]), 'err_ref': err_ref})
 
